@@ -65,6 +65,8 @@ class Xtensa:
                 addr = (a[self.reg(ops[1])] + parse_int(ops[2])) & M
                 if addr % 4:
                     raise Violation('misaligned-access', '%s at 0x%x' % (src, addr))
+                if STACK_TOP - STACK_SIZE <= addr < a[1]:
+                    raise Violation('access-below-stack-pointer', '%s touches 0x%x while sp = 0x%x' % (src, addr, a[1]))
                 if mn.startswith('l'):
                     a[self.reg(ops[0])] = mem.load(addr, 4, src)
                 else:
